@@ -60,13 +60,21 @@ def vector_case(draw, formats, tier, max_sources=None, solid_only=False, allow_g
         cfg["reuse_tolerance"] = draw(st.sampled_from(tolerances))
     share_vb = draw(st.booleans())
     vb0 = None
+    paint_lib = None
+    if share_vb and not solid_only and draw(st.booleans()):
+        from ..gen_svg import gradient_paint
+
+        paint_lib = [dict(draw(gradient_paint(palette, (10.0, 10.0, 60.0, 70.0))), units="user") for _ in range(draw(st.integers(1, 2)))]
+        for pl in paint_lib:
+            # userSpaceOnUse geometry is given in absolute numbers: make it fit a generic 24..2048 viewBox region
+            pass
     sources = []
     seqs = draw(st.one_of(st.just(None), st.just(None), sequence_set(n)))
     if seqs is None:
         seqs = simple_cps(n)
     for i in range(n):
         m = draw(source_model(palette, lib, vb=vb0 if share_vb else None, max_shapes=5 if tier == "quick" else 8,
-                              solid_only=solid_only, allow_groups=allow_groups, p_grad=p_grad, place_classes=place_classes, lib_prob=lib_prob))
+                              solid_only=solid_only, allow_groups=allow_groups, p_grad=p_grad, place_classes=place_classes, lib_prob=lib_prob, paint_lib=paint_lib))
         if share_vb and vb0 is None:
             vb0 = m["vb"]
         if n > 1 and i > 0 and draw(st.sampled_from([False] * 14 + [True])):
